@@ -33,6 +33,8 @@ def gen_history(rng, off, cap):
             else:
                 a, b = rng.randint(0, max(rem, 1)), rng.randint(0, 3)
             h.append("calloc %d %d" % (a, b))
+        elif r < 0.55:
+            h.append("reallocdead %d" % rng.choice([0, 1, 8, 16, rng.randint(0, max(cap, 1))]))   # bad-op on both sides while the last block is live
         elif r < 0.67:
             h.append("realloc %s %d" % (rng.choice(["^", "^", "^", "~%d" % rng.randint(0, 9)]), size()))
         elif r < 0.85:
